@@ -51,8 +51,10 @@ Definition ostate_eqb (a b : option state) : bool :=
   | _, _ => false
   end.
 
-(* an end time taken during coercion.New (it lies in [k_t0, k_t1] and differs from the object's end
-   time before) is represented by k_t0, which is the model's [stamp] *)
+(* The only clock reading start-up recovery writes is the End of the PLAN row of a plan it closes
+   (plan.State.End = time.Now(); since f93b03f the closed children end at lastUpdate(plan), a stamp that
+   was already in the store and is compared exactly).  An End of the plan row that lies in [k_t0, k_t1]
+   and differs from the one before is represented by k_t0, which is the model's [stamp]. *)
 Definition norm_end (t0 t1 : Z) (before st : option state) : option state :=
   match st with
   | Some s =>
@@ -61,9 +63,10 @@ Definition norm_end (t0 t1 : Z) (before st : option state) : option state :=
   | None => None
   end.
 
-Fixpoint norm_states (t0 t1 : Z) (before obs : list (option state)) : list (option state) :=
+(* [before], [obs]: the states of a plan in walk order; the plan row is the first *)
+Definition norm_states (t0 t1 : Z) (before obs : list (option state)) : list (option state) :=
   match before, obs with
-  | b :: before', o :: obs' => norm_end t0 t1 b o :: norm_states t0 t1 before' obs'
+  | b :: _, o :: obs' => norm_end t0 t1 b o :: obs'
   | _, _ => obs
   end.
 
